@@ -147,7 +147,10 @@ def model_check(ctx, module, cfg_text, name=None, workers=None, timeout=3600, ex
     rc, out = java_tlc(ctx.specdir, module + ".tla", cfgname, workers=workers or min(NCPU, 8), timeout=timeout, xmx="8g")
     m = RE_STATES.findall(out)
     if not m:
-        raise Broken(f"TLC produced no state count for {name}:\n{out[-3000:]}")
+        if expect_violation and f"Invariant {expect_violation} is violated" in out:
+            m = [("1", "1")]     # violated already by an initial state
+        else:
+            raise Broken(f"TLC produced no state count for {name}:\n{out[-3000:]}")
     gen, dist = map(int, m[-1])
     cases = []
     if want_cases:
